@@ -32,6 +32,10 @@ pub enum Ev {
     },
     Probe,
     Restart,
+    /// the server dies right after a (valid) `.register` reached the store: the registration -
+    /// possibly the replacement of an instance that never got to announce its stop - is only
+    /// found in history by the next server
+    RestartAfterRegister { name: u8, ctx: u8 },
 }
 
 #[derive(Clone, Debug, Serialize, Deserialize)]
@@ -51,13 +55,14 @@ pub fn strategy() -> BoxedStrategy<C17Case> {
         3 => (nc(), proptest::bool::weighted(0.4)).prop_map(|((name, ctx), fail)| Ev::CCall { name, ctx, fail }),
         1 => Just(Ev::Probe),
         2 => Just(Ev::Restart),
+        1 => nc().prop_map(|(name, ctx)| Ev::RestartAfterRegister { name, ctx }),
     ];
     proptest::collection::vec(ev, 2..12)
         .prop_map(|mut events| {
             // at most two restarts inside, and always one at the end
             let mut seen = 0;
             events.retain(|e| {
-                if matches!(e, Ev::Restart) {
+                if matches!(e, Ev::Restart | Ev::RestartAfterRegister { .. }) {
                     seen += 1;
                     seen <= 2
                 } else {
@@ -298,6 +303,7 @@ fn run_in(case: &C17Case, nu: &mut Nu) -> Result<CaseInfo, Fail> {
     let mut stopped_and_live = false;
     let mut had_stop = false;
     let mut failed_call = false;
+    let mut replaced_while_down = false;
     for (i, ev) in case.events.iter().enumerate() {
         match ev {
             Ev::HReg { name, ctx, valid } => {
@@ -421,7 +427,7 @@ fn run_in(case: &C17Case, nu: &mut Nu) -> Result<CaseInfo, Fail> {
                 r.m.generators = saved;
                 res?;
             }
-            Ev::Restart => {
+            Ev::Restart | Ev::RestartAfterRegister { .. } => {
                 if had_stop && (!r.m.handlers.is_empty() || r.m.generators.values().any(|v| v.is_some()) || !r.m.commands.is_empty()) {
                     stopped_and_live = true;
                 }
@@ -430,7 +436,23 @@ fn run_in(case: &C17Case, nu: &mut Nu) -> Result<CaseInfo, Fail> {
                 let count = |fr: &[WFrame], id: &String| fr.iter().filter(|w| meta_of(w, "frame_id").as_deref() == Some(id)).count();
                 let counts: Vec<(String, usize)> = r.past_triggers.iter().map(|t| (t.clone(), count(&before, t))).collect();
                 start_marker = before.iter().map(|w| w.id128()).max().unwrap_or(0);
-                r.nu.restart()?;
+                if let Ev::RestartAfterRegister { name, ctx } = ev {
+                    r.version += 1;
+                    let n = HN[*name as usize];
+                    let (topic, cx, script) = (format!("{n}.register"), r.ctxs[*ctx as usize], h_script(n, r.version, true));
+                    let mut appended: Option<WFrame> = None;
+                    r.nu.restart_after(|ex| {
+                        appended = Some(crate::hist::must("append register while down", ex.append(&fspec(&topic, cx, None, None), Some(script.as_bytes())))?);
+                        Ok(())
+                    })?;
+                    let f = appended.expect("appended");
+                    if r.m.handlers.insert((*ctx, *name), (f.id.clone(), r.version)).is_some() {
+                        had_stop = true;
+                        replaced_while_down = true;
+                    }
+                } else {
+                    r.nu.restart()?;
+                }
                 restarts += 1;
                 r.m.running = r.m.generators.iter().filter(|(_, v)| v.is_some()).map(|(k, _)| *k).collect();
                 r.settle_loops()?;
@@ -457,6 +479,7 @@ fn run_in(case: &C17Case, nu: &mut Nu) -> Result<CaseInfo, Fail> {
     for (on, name) in [
         (same_name_two_ctx, "same-name-in-two-contexts"),
         (failed_call, "command-call-failed-at-run-time"),
+        (replaced_while_down, "replacing-register-found-only-in-history"),
         (stopped_and_live, "stopped-and-live-at-restart"),
         (restarts >= 2, "two-or-more-restarts"),
     ] {
